@@ -431,7 +431,7 @@ func windowFor(r *vhlib.Rand, h uint64, s st) (ws, we uint64) {
 		ws = hi + 1
 	default:
 		ws = lo
-		if hi > lo {
+		if hi > lo && hi-lo < math.MaxUint64 {
 			ws = lo + r.Uint64()%(hi-lo+1)
 		}
 	}
